@@ -515,6 +515,8 @@ def phi_2D_admix_1_into_2(phi, f, xx,yy):
     Returns:
         phi (array): The updated phi array.
     """
+    if f > 1:
+        raise ValueError('Admixture proportion (f=%f) is non-sensible.' % f)
     # This is just like the the split_admix situation, but we're splitting into
     # a population with zz=yy. We could do this by creating a xx by yy by yy
     # array, then integrating out the second population. That's a big waste of
@@ -556,6 +558,8 @@ def phi_2D_admix_2_into_1(phi, f, xx,yy):
     Returns:
         phi (array): The updated phi array.
     """
+    if f > 1:
+        raise ValueError('Admixture proportion (f=%f) is non-sensible.' % f)
     # Note that it's 1-f here since f now denotes the fraction coming from
     # population 2.
     Demes.cache.append(Demes.Pulse(sources=[2], dest=1, proportions=[f]))
@@ -628,6 +632,9 @@ def phi_3D_admix_1_and_3_into_2(phi, f1,f3, xx,yy,zz):
     Returns:
         phi (array): The updated phi array.
     """
+    if f1 + f3 > 1:
+        raise ValueError('Admixture proportions (f1=%f, f3=%f) are '
+                         'non-sensible.' % (f1, f3))
     Demes.cache.append(Demes.Pulse(sources=[1,3], dest=2, proportions=[f1,f3]))
     lower_w_index, upper_w_index, frac_lower, frac_upper, norm \
             = _three_pop_admixture_intermediates(phi, f1,1-f1-f3, xx,yy,zz, yy)
@@ -665,6 +672,9 @@ def phi_3D_admix_2_and_3_into_1(phi, f2,f3, xx,yy,zz):
     Returns:
         phi (array): The updated phi array.
     """
+    if f2 + f3 > 1:
+        raise ValueError('Admixture proportions (f2=%f, f3=%f) are '
+                         'non-sensible.' % (f2, f3))
     Demes.cache.append(Demes.Pulse(sources=[2,3], dest=1, proportions=[f2,f3]))
     lower_w_index, upper_w_index, frac_lower, frac_upper, norm \
             = _three_pop_admixture_intermediates(phi, 1-f2-f3,f2, xx,yy,zz, xx)
@@ -704,6 +714,9 @@ def phi_4D_admix_into_1(phi, f2,f3,f4, xx,yy,zz,aa):
     Returns:
         phi (array): The updated phi array.
     """
+    if f2 + f3 + f4 > 1:
+        raise ValueError('Admixture proportions (f2=%f, f3=%f, f4=%f) are '
+                         'non-sensible.' % (f2, f3, f4))
     Demes.cache.append(Demes.Pulse(sources=[2,3,4], dest=1, proportions=[f2,f3,f4]))
     lower_w_index, upper_w_index, frac_lower, frac_upper, norm \
             = _four_pop_admixture_intermediates(phi, 1-f2-f3-f4,f2,f3, xx,yy,zz,aa, xx)
@@ -782,6 +795,9 @@ def phi_4D_admix_into_3(phi, f1,f2,f4, xx,yy,zz,aa):
     Returns:
         phi (array): The updated phi array.
     """
+    if f1 + f2 + f4 > 1:
+        raise ValueError('Admixture proportions (f1=%f, f2=%f, f4=%f) are '
+                         'non-sensible.' % (f1, f2, f4))
     Demes.cache.append(Demes.Pulse(sources=[1,2,4], dest=3, proportions=[f1, f2, f4]))
     lower_w_index, upper_w_index, frac_lower, frac_upper, norm \
             = _four_pop_admixture_intermediates(phi, f1,f2,1-f1-f2-f4, xx,yy,zz,aa, yy)
@@ -820,6 +836,9 @@ def phi_4D_admix_into_2(phi, f1,f3,f4, xx,yy,zz,aa):
     Returns:
         phi (array): The updated phi array.
     """
+    if f1 + f3 + f4 > 1:
+        raise ValueError('Admixture proportions (f1=%f, f3=%f, f4=%f) are '
+                         'non-sensible.' % (f1, f3, f4))
     Demes.cache.append(Demes.Pulse(sources=[1,3,4], dest=2, proportions=[f1, f3, f4]))
     lower_w_index, upper_w_index, frac_lower, frac_upper, norm \
             = _four_pop_admixture_intermediates(phi, f1,1-f1-f3-f4,f3, xx,yy,zz,aa, yy)
@@ -860,6 +879,9 @@ def phi_5D_admix_into_1(phi, f2,f3,f4,f5, xx,yy,zz,aa,bb):
     Returns:
         phi (array): The updated phi array.
     """
+    if f2 + f3 + f4 + f5 > 1:
+        raise ValueError('Admixture proportions (f2=%f, f3=%f, f4=%f, f5=%f) are '
+                         'non-sensible.' % (f2, f3, f4, f5))
     lower_w_index, upper_w_index, frac_lower, frac_upper, norm \
             = _five_pop_admixture_intermediates(phi, 1-f2-f3-f4-f5,f2,f3,f4, xx,yy,zz,aa,bb, xx)
 
@@ -900,6 +922,9 @@ def phi_5D_admix_into_2(phi, f1,f3,f4,f5, xx,yy,zz,aa,bb):
     Returns:
         phi (array): The updated phi array.
     """
+    if f1 + f3 + f4 + f5 > 1:
+        raise ValueError('Admixture proportions (f1=%f, f3=%f, f4=%f, f5=%f) are '
+                         'non-sensible.' % (f1, f3, f4, f5))
     lower_w_index, upper_w_index, frac_lower, frac_upper, norm \
             = _five_pop_admixture_intermediates(phi, f1, 1-f1-f3-f4-f5,f3,f4, xx,yy,zz,aa,bb, xx)
 
@@ -940,6 +965,9 @@ def phi_5D_admix_into_3(phi, f1,f2,f4,f5, xx,yy,zz,aa,bb):
     Returns:
         phi (array): The updated phi array.
     """
+    if f1 + f2 + f4 + f5 > 1:
+        raise ValueError('Admixture proportions (f1=%f, f2=%f, f4=%f, f5=%f) are '
+                         'non-sensible.' % (f1, f2, f4, f5))
     lower_w_index, upper_w_index, frac_lower, frac_upper, norm \
             = _five_pop_admixture_intermediates(phi, f1, f2, 1-f1-f2-f4-f5,f4, xx,yy,zz,aa,bb, xx)
 
@@ -980,6 +1008,9 @@ def phi_5D_admix_into_4(phi, f1,f2,f3,f5, xx,yy,zz,aa,bb):
     Returns:
         phi (array): The updated phi array.
     """
+    if f1 + f2 + f3 + f5 > 1:
+        raise ValueError('Admixture proportions (f1=%f, f2=%f, f3=%f, f5=%f) are '
+                         'non-sensible.' % (f1, f2, f3, f5))
     lower_w_index, upper_w_index, frac_lower, frac_upper, norm \
             = _five_pop_admixture_intermediates(phi, f1, f2, f3, 1-f1-f2-f3-f5, xx,yy,zz,aa,bb, xx)
 
